@@ -68,7 +68,7 @@ POOLS_T = {
 MODS_Q = [None, 1, 2, 3, 4, 5, 6, 7, 8, 9]
 MODS_T = MODS_Q + [10, 11, 12, 13, 16, 17, 31, 64]
 BIGMODS_Q = [13, 200, 1000]
-BIGMODS_T = [127, 128, 129, 200, 255, 256, 257, 1000, 65536, 2 ** 31]
+BIGMODS_T = [127, 128, 129, 200, 255, 256, 257, 1000, 65536]
 
 # Part B structures: (dtype, keys, mod)
 STRUCT_B_Q = [
